@@ -15,7 +15,8 @@ Inductive sev :=
 | SHA                            (* H *)
 | ST (ferr : bool) (errat : N)   (* t; errat = 0: no transient header failure, k: the k-th numbered header call fails *)
 | SR                             (* r *)
-| SM.                            (* m *)
+| SM                             (* m *)
+| SN (ferr : bool) (errat : N).  (* n: tick, node stopped while the subscriber is being notified, started again *)
 
 (* a processor call observed by the harness *)
 Record pop := { a_at : N;          (* lock stream: index of the script event during which the call was made *)
@@ -69,6 +70,7 @@ Definition to_event (c : case06) (e : sev) : event :=
   | ST ferr errat => ETick ferr (match errat with 0 => None | _ => Some (N.to_nat (errat - 1)) end)
   | SR => ERestart
   | SM => ECrashMid
+  | SN ferr errat => ECrashNotify ferr (match errat with 0 => None | _ => Some (N.to_nat (errat - 1)) end)
   end.
 
 (* ---- model == implementation ? (lock stream) ---- *)
